@@ -41,55 +41,60 @@ theorem upsert_fresh {α : Type} {key : α → Nat} {xs : List α} {x : α} (h :
     simpa using this
   simp [this]
 
+theorem addRequest_fresh {env : Env} {s s' : Sim} {r : Request} (hfresh : s.request? r.id = none)
+    (h : s.addRequest env r = .ok s') :
+    s' = { s with requests := s.requests ++ [r], rIdx := Index.add env.parent s.rIdx r.pos.cell r.id } := by
+  unfold Sim.addRequest at h
+  split at h
+  · cases h
+  · rw [hfresh] at h
+    simp only at h
+    cases h
+    rw [upsert_fresh hfresh]
+
 theorem addRequest_fields {env : Env} {s s' : Sim} {r : Request} (hfresh : s.request? r.id = none)
     (h : s.addRequest env r = .ok s') :
     s'.vehicles = s.vehicles ∧ s'.stations = s.stations ∧ s'.bases = s.bases ∧ s'.time = s.time ∧ s'.dt = s.dt ∧
     s'.requests = s.requests ++ [r] ∧ (∀ i, i ≠ r.id → s'.request? i = s.request? i) ∧ s'.request? r.id = some r := by
-  unfold Sim.addRequest at h
-  split at h
-  · cases h
-  · cases h
-    refine ⟨rfl, rfl, rfl, rfl, rfl, upsert_fresh hfresh, ?_, ?_⟩
-    · intro i hi
-      unfold Sim.request?
-      simp only
-      rw [upsert_fresh hfresh]
-      unfold lookup
-      rw [List.find?_append]
-      cases hfind : List.find? (fun x => x.id == i) s.requests with
-      | some x => simp
-      | none =>
-        have : (r.id == i) = false := by simpa using (Ne.symm hi)
-        simp [this]
-    · unfold Sim.request?
-      simp only
-      rw [upsert_fresh hfresh]
-      unfold lookup
-      rw [List.find?_append]
-      have : List.find? (fun x => x.id == r.id) s.requests = none := hfresh
+  have := addRequest_fresh hfresh h
+  subst this
+  refine ⟨rfl, rfl, rfl, rfl, rfl, rfl, ?_, ?_⟩
+  · intro i hi
+    unfold Sim.request?
+    simp only
+    unfold lookup
+    rw [List.find?_append]
+    cases hfind : List.find? (fun x => x.id == i) s.requests with
+    | some x => simp
+    | none =>
+      have : (r.id == i) = false := by simpa using (Ne.symm hi)
       simp [this]
+  · unfold Sim.request?
+    simp only
+    unfold lookup
+    rw [List.find?_append]
+    have : List.find? (fun x => x.id == r.id) s.requests = none := hfresh
+    simp [this]
 
 theorem addRequest_wf {env : Env} {s s' : Sim} {r : Request} (hwf : s.WF) (hfresh : s.request? r.id = none)
     (h : s.addRequest env r = .ok s') : s'.WF := by
-  unfold Sim.addRequest at h
-  split at h
-  · cases h
-  · cases h
-    refine ⟨hwf.veh, hwf.stn, hwf.base, ?_, hwf.plugs⟩
-    simp only
-    rw [upsert_fresh hfresh, List.map_append, List.map_cons, List.map_nil]
-    have hnot : r.id ∉ s.requests.map Request.id := by
-      intro hmem
-      obtain ⟨y, hy, hyid⟩ := List.mem_map.mp hmem
-      exact lookup_none hfresh y hy hyid
-    rw [List.nodup_append]
-    refine ⟨hwf.req, by simp, ?_⟩
-    intro a ha b hb
-    simp only [List.mem_cons, List.not_mem_nil, or_false] at hb
-    subst hb
-    intro heq
-    subst heq
-    exact hnot ha
+  have := addRequest_fresh hfresh h
+  subst this
+  refine ⟨hwf.veh, hwf.stn, hwf.base, ?_, hwf.plugs⟩
+  simp only
+  rw [List.map_append, List.map_cons, List.map_nil]
+  have hnot : r.id ∉ s.requests.map Request.id := by
+    intro hmem
+    obtain ⟨y, hy, hyid⟩ := List.mem_map.mp hmem
+    exact lookup_none hfresh y hy hyid
+  rw [List.nodup_append]
+  refine ⟨hwf.req, by simp, ?_⟩
+  intro a ha b hb
+  simp only [List.mem_cons, List.not_mem_nil, or_false] at hb
+  subst hb
+  intro heq
+  subst heq
+  exact hnot ha
 
 theorem phase_wf {env : Env} {s s' : Sim} (hwf : s.WF) (h : Phase env s s') : s'.WF := by
   have hTrue : StepInv env (fun _ => True) := ⟨fun _ _ _ => trivial, fun _ _ _ _ _ => trivial, fun _ _ _ _ => trivial⟩
